@@ -196,6 +196,15 @@ def check_case(ctx, case):
     try:
         E, E2, norms, probe = run_case(case, case["backend"], case["tol"], rng)
     except Exception as ex:  # noqa: BLE001
+        import traceback
+        tb = traceback.format_exc()
+        if isinstance(ex, AssertionError) and "energy_second_moment_mps_impl" in tb:
+            # known shape: the sanity assert `|Im <H^2>| < 1e-4` is ABSOLUTE while H @ H is compressed to a RELATIVE
+            # precision of 1e-5, so a valid run with <H^2> ~ 1e2 (16 atoms, per-atom phases) can trip it
+            ctx.violation("emu-mps: EnergySecondMoment raises AssertionError on a valid noiseless constant-drive run (absolute "
+                          "tolerance 1e-4 on Im<H^2> although H@H is only compressed to relative precision 1e-5)",
+                          {"case": _ser(case), "finding_key": "second-moment-imag-assert"})
+            return
         ctx.violation(f"{case['backend']} raised on a constant-drive noiseless input: {ex!r}",
                       {"case": _ser(case), "finding_key": "conservation-raises"})
         return
